@@ -49,8 +49,19 @@ def check(model: Model, run: Run) -> None:
         codes = isinstance(r.exc, ast.Call) and [dotted(a) for a in r.exc.args[:2]] == ['self.code', 'self.subcode']
         run.check(bool(codes), f.qualname, 'raises Notify(self.code, self.subcode)', f.loc(r), 'the expiry must carry the codes given at construction (4/0)')
     # last_read refresh
-    writes = [n for n in walk_no_nested(f.node) if isinstance(n, ast.Assign) and dotted(n.targets[0]) == 'self.last_read']
-    okw = len(writes) == 1 and any(re.fullmatch(r'not \w+\.SCHEDULING', x) for x in facts(Loc(model, f), writes[0]))
+    writes = [n for n in walk_no_nested(f.node) if (isinstance(n, ast.Assign) and dotted(n.targets[0]) == 'self.last_read') or (isinstance(n, ast.AnnAssign) and n.value is not None and dotted(n.target) == 'self.last_read')]
+
+    def real_message(x: str) -> bool:
+        # `not m.SCHEDULING`, or m.SCHEDULING compared equal to the member of Scheduling that is 0 (MESSAGE)
+        if re.fullmatch(r'not \w+\.SCHEDULING', x):
+            return True
+        m_ = re.fullmatch(r'(\w+\.SCHEDULING) == ([\w.]+)|([\w.]+) == (\w+\.SCHEDULING)', x)
+        if m_:
+            other = m_.group(2) or m_.group(3)
+            return folder.fold(ast.parse(other, mode='eval').body, f.module, f.cls) == 0
+        return False
+
+    okw = len(writes) == 1 and any(real_message(x) for x in facts(Loc(model, f), writes[0]))
     run.check(okw, f.qualname, 'last_read refreshed only under `not message.SCHEDULING`', f.loc(writes[0]) if writes else f.loc(), 'an internal NOP must not count as traffic from the peer')
     # constructed with holdtime negotiated
     est = model.func(PEER + '._establish')
@@ -64,9 +75,32 @@ def check(model: Model, run: Run) -> None:
     ka = model.func(HT + '.keepalive')
     run.analysed(ka)
     div = folder.class_attr(HT, 'KEEPALIVE_DIVISOR')
-    ret = [r for r in walk_no_nested(ka.node) if isinstance(r, ast.Return)]
-    okd = div == 3 and len(ret) == 1 and 'self / self.KEEPALIVE_DIVISOR' in norm(ret[0]).replace('(', ' ').replace(')', ' ') or (len(ret) == 1 and norm(ret[0]) in ('return int(self / 3)', 'return self // 3', 'return self // self.KEEPALIVE_DIVISOR') and div in (3, UNKNOWN))
-    run.check(bool(okd), ka.qualname, '%s with divisor %s' % (norm(ret[0]) if ret else None, div), ka.loc(), 'RFC 4271 4.4: keepalive interval is one third of the hold time')
+    # evaluated for hold times 0, 3, 90 and 180: one third, in whole seconds
+    from ..evalfn import eval_function as _ev
+
+    me = ka.node.args.args[0].arg
+
+    def hold_attr(e: ast.AST):
+        # a constant of the class read through the instance (self.KEEPALIVE_DIVISOR): the instance is a plain number here
+        if isinstance(e, ast.Attribute) and isinstance(e.value, ast.Name) and e.value.id == me:
+            return folder.class_attr(HT, e.attr)
+        if isinstance(e, ast.BinOp):
+            l_, r_ = (hold_attr(x) if isinstance(x, ast.Attribute) else folder.fold(x, ka.module, ka.cls, cur_env) for x in (e.left, e.right))
+            if isinstance(l_, (int, float)) and isinstance(r_, (int, float)) and r_:
+                return {ast.Div: lambda a, b: a / b, ast.FloorDiv: lambda a, b: a // b}.get(type(e.op), lambda a, b: UNKNOWN)(l_, r_)
+        if isinstance(e, ast.Call) and isinstance(e.func, ast.Name) and e.func.id == 'int' and len(e.args) == 1:
+            v_ = folder.fold(e.args[0], ka.module, ka.cls, cur_env)
+            if v_ is UNKNOWN:
+                v_ = hold_attr(e.args[0])
+            return int(v_) if isinstance(v_, (int, float)) else UNKNOWN
+        return UNKNOWN
+
+    got_ka = {}
+    for h in (0, 3, 90, 180):
+        cur_env: dict = {}
+        got_ka[h] = _ev(folder, ka, {me: h}, on_unknown=hold_attr, env_out=cur_env)
+    okd = got_ka == {0: 0, 3: 1, 90: 30, 180: 60}
+    run.check(bool(okd), ka.qualname, 'keepalive() for hold times 0 / 3 / 90 / 180 = %s (divisor %s)' % (got_ka, div), ka.loc(), 'RFC 4271 4.4: keepalive interval is one third of the hold time')
     mn = folder.class_attr(HT, 'MIN')
     run.check(mn == 3, HT, 'MIN = %s' % mn, model.cls(HT).loc(), 'RFC 4271: hold time is 0 or at least 3')
     nk = model.func(ST + '.need_ka')
@@ -91,10 +125,13 @@ def check(model: Model, run: Run) -> None:
     fire = None
     run.check(okf, nk.qualname, 'fires when last_sent + keepalive - now <= 0 and records now (last_sent 100, keepalive 10: %s)' % seen_ka, nk.loc(), 'a KEEPALIVE is due once a keepalive interval has passed since the last one: expected no KEEPALIVE at 105 and 109, one at 110 and 125, each recording its time')
     stc = model.func(ST + '.__init__')
-    okk = any(isinstance(n, ast.Assign) and dotted(n.targets[0]) == 'self.keepalive' and norm(n.value) == 'holdtime.keepalive()' for n in walk_no_nested(stc.node))
+    hparam = stc.node.args.args[2].arg if len(stc.node.args.args) > 2 else 'holdtime'
+    stl = Loc(model, stc)
+    okk = any(isinstance(n, (ast.Assign, ast.AnnAssign)) and n.value is not None and dotted(n.targets[0] if isinstance(n, ast.Assign) else n.target) == 'self.keepalive' and stl.expand(n.value) == '%s.keepalive()' % hparam for n in walk_no_nested(stc.node))
     run.check(okk, stc.qualname, 'self.keepalive = holdtime.keepalive()', stc.loc(), 'the send interval derives from the negotiated hold time')
     kainit = model.func('exabgp.reactor.keepalive.KA.__init__')
-    okn = any(isinstance(n, ast.Call) and model.call_matches(kainit.module, n, 'SendTimer') and len(n.args) >= 2 and (dotted(n.args[1]) or '').endswith('negotiated.holdtime') for n in walk_no_nested(kainit.node))
+    kal = Loc(model, kainit)
+    okn = any(isinstance(n, ast.Call) and model.call_matches(kainit.module, n, 'SendTimer') and len(n.args) >= 2 and kal.expand(n.args[1]).endswith('negotiated.holdtime') for n in walk_no_nested(kainit.node))
     run.check(okn, kainit.qualname, 'SendTimer(session, proto.negotiated.holdtime)', kainit.loc(), 'the send timer must use the negotiated hold time')
 
     # ------------------------------------------------------------------ R3 main loop wiring
